@@ -110,7 +110,7 @@ partial def parseV : List String → Option (V × List String)
     else if t == "b0" then some (.bool false, rest)
     else if t == "b1" then some (.bool true, rest)
     else if t.startsWith "t" then
-      match (t.drop 1).toString.splitOn "." with
+      match (((t.drop 1).toString.splitOn "z").headD "").splitOn "." with
       | [a, b] => (a.toInt?).bind fun sec => (b.toNat?).map fun ns => (V.time sec ns, rest)
       | _ => none
     else none
@@ -130,7 +130,7 @@ partial def dumpV : V → String
   | .flt b => "f" ++ hexOfNat 16 b.toNat
   | .str s => "s" ++ hexOfString (String.ofList s)
   | .bool b => if b then "b1" else "b0"
-  | .time sec ns => s!"t{sec}.{ns}"
+  | .time sec ns => s!"t{sec}.{ns}z0"
   | .nil => "N"
   | .ptr v => "P/" ++ dumpV v
   | .list vs => String.intercalate "/" (["["] ++ vs.map dumpV ++ ["]"])
